@@ -1,19 +1,23 @@
 /-
   Driver family `ladder` (property C02).
 
-    rd <texthex>          lex + rdParse over the generated ladder        → ok <tree sexp> | error
+    rd <texthex>          lex + rdParseT (operators, conditional, lambda) over the generated ladder → ok <tree sexp> | error
     pymin <expr>          printMin pyTable e, tokens joined by blanks    → ok <texthex>
     astof <expr>          CPython's reading astOf e                      → <ast sexp>
     rdast <expr>          toAst (rdParseP ladder (printMin pyTable e))   → <ast sexp> | error
     tree <sexp>           set the current tree (format of family `tree`) → ok <size>
     classes               class of every position, document order        → path=Class|path=Class|…   (errors as enum strings)
 
-  <expr> ::= a<n> | ( b <opcode> <expr> <expr> ) | ( u <opcode> <expr> ) | ( p <expr> )     (tokens separated by one blank)
+    args <arguments sexp> tranp's reading of an `arguments` subtree        → ok pos,kw:<label>,star,dstar …
+
+  <expr> ::= a<n> | ( b <opcode> <expr> <expr> ) | ( u <opcode> <expr> ) | ( p <expr> ) | ( i <body> <test> <orelse> )
+           | ( l <k> a<n>×k <body> )                                      (tokens separated by one blank)
   tree sexp: ( tag child … ) | t:tag:valuehex | _          ast sexp: leaf text | (U op e) | (B op l r) | (L op v…) | (C l op c op c …)
 -/
 import Tranp.Driver.Common
 import Tranp.Driver.Tree
 import Tranp.Model.Ladder
+import Tranp.Model.LadderT
 import Tranp.Model.Classify
 import Tranp.Generated.GrammarLadder
 import Tranp.Generated.ResolverTable
@@ -26,7 +30,7 @@ partial def treeSexp : LarkTree → String
   | .token t v => s!"t:{l2s t}:{Str.hex v}"
   | .empty => "_"
 
-partial def parseExpr : List String → Option (Prec.Expr × List String)
+partial def parseExpr : List String → Option (TExpr × List String)
   | "(" :: "b" :: o :: rest => do
     let (l, rest) ← parseExpr rest
     let (r, rest) ← parseExpr rest
@@ -43,11 +47,25 @@ partial def parseExpr : List String → Option (Prec.Expr × List String)
     match rest with
     | ")" :: rest => some (.paren e, rest)
     | _ => none
+  | "(" :: "i" :: rest => do
+    let (b, rest) ← parseExpr rest
+    let (c, rest) ← parseExpr rest
+    let (e, rest) ← parseExpr rest
+    match rest with
+    | ")" :: rest => some (.ifExp b c e, rest)
+    | _ => none
+  | "(" :: "l" :: k :: rest => do
+    let k ← k.toNat?
+    let ps ← (rest.take k).mapM fun tok => if tok.startsWith "a" then (tok.drop 1).toString.toNat? else none
+    let (body, rest) ← parseExpr (rest.drop k)
+    match rest with
+    | ")" :: rest => some (.lam ps body, rest)
+    | _ => none
   | tok :: rest =>
     if tok.startsWith "a" then (tok.drop 1).toString.toNat?.map fun n => (.atom n, rest) else none
   | [] => none
 
-def readExpr (sx : String) : Option Prec.Expr :=
+def readExpr (sx : String) : Option TExpr :=
   match parseExpr (sx.splitOn " ") with
   | some (e, []) => some e
   | _ => none
@@ -56,7 +74,9 @@ def atomName (n : Nat) : Str := 'a' :: Str.natToDec n
 
 def atomTree (n : Nat) : LarkTree := .tree ['v','a','r'] [.tree ['n','a','m','e'] [.token ['N','A','M','E'] (atomName n)]]
 
-def info : Info := ⟨Generated.GrammarLadder.ladder, Generated.GrammarLadder.compOps, atomTree⟩
+def paramTree (n : Nat) : LarkTree := .tree ['n','a','m','e'] [.token ['N','A','M','E'] (atomName n)]
+
+def info : InfoT := ⟨Generated.GrammarLadder.ladder, Generated.GrammarLadder.compOps, atomTree, paramTree⟩
 
 def tokText : Prec.Tok → Str
   | .atom n => atomName n
@@ -75,6 +95,8 @@ partial def astSexp : PyAst → String
   | .boolOp o vs => s!"(L {l2s (opName o)}" ++ String.join (vs.map fun v => " " ++ astSexp v) ++ ")"
   | .compare l ops cs =>
     s!"(C {astSexp l}" ++ String.join ((ops.zip cs).map fun (o, c) => s!" {(l2s (opName o)).replace " " "_"} {astSexp c}") ++ ")"
+  | .ifExp c b e => s!"(I {astSexp c} {astSexp b} {astSexp e})"
+  | .lambda ps body => "(F [" ++ " ".intercalate (ps.map leafText) ++ s!"] {astSexp body})"
   | .bad => "bad"
 
 structure St where
@@ -89,21 +111,21 @@ def classesLine (root : Entry) : String :=
 
 def step (st : St) : List String → St × String
   | ["rd", t] =>
-    match (lex (unhexD t)).bind (rdParse Generated.GrammarLadder.ladder Generated.GrammarLadder.compOps) with
+    match (lex (unhexD t)).bind (rdParseT Generated.GrammarLadder.ladder Generated.GrammarLadder.compOps) with
     | some tr => (st, "ok " ++ treeSexp tr)
     | none => (st, "error")
   | ["pymin", sx] =>
     match readExpr sx with
-    | some e => (st, "ok " ++ Str.hex (Str.join [' '] ((Prec.printMin pyTable.ops e).map tokText)))
+    | some e => (st, "ok " ++ Str.hex (Str.join [' '] ((printMinT pyTable.ops e).map tokText)))
     | none => (st, "bad-op")
   | ["astof", sx] =>
     match readExpr sx with
-    | some e => (st, astSexp (astOf atomTree e))
+    | some e => (st, astSexp (astOfT info e))
     | none => (st, "bad-op")
   | ["rdast", sx] =>
     match readExpr sx with
     | some e =>
-      match rdParseP info (Prec.printMin pyTable.ops e) with
+      match rdParseTP info (printMinT pyTable.ops e) with
       | some tr => (st, astSexp (toAst tr))
       | none => (st, "error")
     | none => (st, "bad-op")
@@ -112,6 +134,14 @@ def step (st : St) : List String → St × String
     | some (e, []) => ({ st with root := e }, s!"ok {size e}")
     | _ => (st, "bad-op")
   | ["classes"] => (st, classesLine st.root)
+  | ["args", sx] =>
+    match Tree.parseSexp (sx.splitOn " ") with
+    | some (e, []) => (st, "ok " ++ ",".intercalate ((readArgs e).map fun
+        | .pos _ => "pos"
+        | .kw l _ => "kw:" ++ leafText l
+        | .star _ => "star"
+        | .dstar _ => "dstar"))
+    | _ => (st, "bad-op")
   | _ => (st, "bad-op")
 
 def run : IO Unit := runFamily step ({} : St)
